@@ -822,7 +822,11 @@ impl<T: Object> From<T> for ObjectHandlerBuilder<T> {
   #[inline]
   fn from(item: T) -> Self {
     let new_layout = make_obj_layout::<ObjHeader, T>();
+    #[cfg(feature = "verif")]
+    let verif_managed = crate::verif::ManagedAlloc::enter();
     let buf = unsafe { alloc(new_layout) };
+    #[cfg(feature = "verif")]
+    drop(verif_managed);
 
     if buf.is_null() {
       handle_alloc_error(new_layout);
